@@ -103,7 +103,12 @@ class one3d(PseudoNetCDFFile):
         time_date = array(self.__memmap.reshape(
             self.__records, self.__record_items)[:, 1:3])
 
-        lays = where(time_date != time_date[newaxis, 0])[0][0]
+        changed = where(time_date != time_date[newaxis, 0])[0]
+        if changed.size > 0:
+            lays = changed[0]
+        else:
+            # the time stamp never changes: a single time step
+            lays = self.__records
 
         new_hour = slice(0, None, lays)
 
